@@ -322,7 +322,7 @@ def run(chk):
     bw = any(s[0] in ('addto', 'scale') and specs[s[1]] is None for s in c['body']['stmts'])
     chk.count({'scan': c}, ('carry' in specs or any(isinstance(s, int) for s in specs)) and len(c['xs']) > 1)
     impl, eager = o['impl'], o['eager']
-    same = ('err' in impl) == ('err' in eager) and ('err' in impl or {k: impl['ok'][k] for k in ('carry', 'ys', 'vals')} == {k: eager['ok'][k] for k in ('carry', 'ys', 'vals')})
+    same = ('err' in impl) == ('err' in eager) and ('err' in impl or {k: impl['ok'][k] for k in ('carry', 'ys', 'vals', 'probes')} == {k: eager['ok'][k] for k in ('carry', 'ys', 'vals', 'probes')})
     if not same:
       if bw and 'ok' in impl and 'ok' in eager:
         stat['scan_broadcast_write'] += 1
@@ -423,7 +423,10 @@ Definition chk (b : bool) : bool := b.
   ba = common.run_impl('impl_c08_extra.py', {'bare_alias': True})['bare_alias']
   for name, r in ba.items():
     chk.count({'bare_variable_alias': name}, True)
-    if name == '_consistent':
+    if name == '_consistent_tied':
+      if 'err' in r or r['ok'] != [2.0, 4.0, 6.0]:
+        chk.violation('oracle', 'a Variable reached at two paths of one module under equal path-based specifications is not accepted as one object', {'observed': r})
+    elif name == '_consistent':
       if 'err' in r or r['ok'] != [0.0, 2.0, 4.0]:
         chk.violation('oracle', 'a bare Variable passed twice under the same axis is not accepted as one object', {'observed': r})
     elif 'err' not in r or 'nconsistent aliasing' not in r.get('msg', ''):
@@ -441,7 +444,9 @@ Definition chk (b : bool) : bool := b.
   bare = {'vmap(in_axes=(0, None))(v, v)': [(0, AX0), (0, NONE)], 'vmap(in_axes=(0, None))(Holder(v), v)': [(0, AX0), (0, NONE)],
           'vmap(in_axes=(StateAxes({Param: None}), 0))(Holder(v), v)': [(0, NONE), (0, AX0)], 'vmap(lambda v: v, in_axes=0, out_axes=1)(v)': [(0, AX0), (0, AX1)],
           'scan(in_axes=(0, None))(v, v)': [(0, AX0), (0, NONE)], 'grad(argnums=0)(p, p)': [(0, DIFF), (0, NODIFF)], 'vmap(in_axes=(0, None))(m, m)': [(0, AX0), (0, NONE)],
-          '_consistent': [(0, AX0), (0, AX0)]}
+          '_consistent': [(0, AX0), (0, AX0)], '_consistent_tied': [(0, AX0), (0, AX0)],
+          'vmap(StateAxes{enc: 0, dec: None})(tied)': [(0, AX0), (0, NONE)], 'vmap(StateAxes{dec: None, enc: 0})(tied)': [(0, AX0), (0, NONE)],
+          'scan(StateAxes{enc: Carry, dec: 0})(tied)': [(0, 7), (0, AX0)]}
   for name, r in ba.items():
     if name in bare:
       arows.append(({'bare': name}, r, '(Bool.eqb (alias_ok %s) %s)' % (occ(bare[name]), common.cbool('err' not in r))))
